@@ -27,8 +27,11 @@ PROPS = {
     "C06": dict(kinds=["pfsmin", "pfsmax"], dirs=["out", "in"], cyc=[False], flavours=ALL4, cmp=True,
                 families_thorough=[dict(nodes=3, vals=1, max_edges=3, rej="single", nvals=[0, 1, 2]),
                                    dict(nodes=4, vals=1, max_edges=3, rej="none", nvals=[0, 1])]),
-    "C07": dict(kinds=ALLK, dirs=["out", "in"], cyc=[False, True], flavours=ALL4, rej_quick="small", rej_thorough="all", nvals_quick=[0], nvals_thorough=[0],
-                kinds_quick=["bfs", "dfs", "pfsmin", "pre", "post"]),
+    "C07": dict(kinds=ALLK, dirs=["out", "in"], cyc=[False, True], flavours=ALL4, rej_quick="small", nvals_quick=[0], nvals_thorough=[0],
+                kinds_quick=["bfs", "dfs", "pfsmin", "pre", "post"],
+                families_thorough=[dict(nodes=3, vals=2, max_edges=3, rej="small", nvals=[0]),
+                                   dict(nodes=3, vals=1, max_edges=2, rej="all", nvals=[0]),
+                                   dict(nodes=4, vals=1, max_edges=3, rej="none", nvals=[0])]),
     "C08": dict(kinds=ALLK, dirs=["out", "in"], cyc=[False, True], flavours=["digraph", "sync_digraph"], nvals_quick=[0],
                 record_dirs=["in"], record_scale=4,
                 families_thorough=[dict(nodes=3, vals=1, max_edges=3, rej="small", nvals=[0, 1]),
